@@ -643,6 +643,26 @@ def t_update(rec, seed, tier, shard):
         o_update(rec, case)
 
     hyp_campaign(rec, body, cases(), n, seed + shard, shrink_budget=20)
+    if shard == 0:
+        # directed: the documented 'default__' spelling of the default category names the SAME keys as the unprefixed spelling
+        from passlib.context import CryptContext
+
+        for how in ("update", "ctor", "load-update", "copy"):
+            rec.ev()
+            base = {"schemes": ["sha256_crypt", "md5_crypt"], "sha256_crypt__min_rounds": 1000, "sha256_crypt__default_rounds": 1500}
+            change = {"default__sha256_crypt__min_rounds": 1200, "default__sha256_crypt__default_rounds": 1300, "default__context__deprecated": ["md5_crypt"]}
+            want = {"schemes": ["sha256_crypt", "md5_crypt"], "sha256_crypt__min_rounds": 1200, "sha256_crypt__default_rounds": 1300, "deprecated": ["md5_crypt"]}
+            if how == "ctor":
+                st, c = call(lambda: CryptContext(**dict(base, **change)))
+            elif how == "copy":
+                st, c = call(lambda: CryptContext(**base).copy(**change))
+            else:
+                c = CryptContext(**base)
+                st, r = call(c.update, **change) if how == "update" else call(c.load, dict(change), update=True)
+            got = c.to_dict() if st == "ok" else repr(c if how in ("ctor", "copy") else r)
+            if got != want or (st == "ok" and (c.needs_update(make_hash("sha256_crypt", 1100)) is not True or c.needs_update(make_hash("md5_crypt", None)) is not True)):
+                rec.fail(f"C10/default-category-alias/{how}", "keys spelled with the 'default__' category prefix do not replace / denote the unprefixed keys", "update_overlay",
+                         {"config": base, "change": change, "how": {"update": "kw", "load-update": "load-update", "copy": "copy-kw", "ctor": "kw"}[how]}, got, want, soft=True)
 
 
 BASES = [
